@@ -129,7 +129,8 @@ def _chunk(args):
     cfgname, m, lines = args
     col = core.Collector()
     for ln in lines:
-        check_case(col, cfgname, m, json.loads(ln))
+        t = json.loads(ln)
+        core.guarded(col, lambda: check_case(col, cfgname, m, t), "label", f"case {t}"[:600], {"config": cfgname, "map": m, "transition": t})
         col.traces += 1
     return col
 
